@@ -15,7 +15,7 @@ class C13(core.Prop):
     theorems = ['TddaVerif.Props.C13.' + t for t in [
         'each_pattern_has_witness', 'count_le_distinct', 'none_for_empty', 'pruning_subset', 'sampled_pattern_has_witness',
         'anchored']]
-    quick_n = 500
+    quick_n = 1500
     thorough_n = 40000
     rule = ('cases: as C03 (example multisets over the exotic alphabet x option subsets x dialects x Size x seeds) plus '
             'max_patterns and min_strings_per_pattern settings, long strings with > 99 coarse runs, and the empty input; '
